@@ -62,7 +62,8 @@ Section TraceProofs.
     - simpl in H. inversion H. reflexivity.
     - cbn [GenericServer.run] in H. destruct (step s q) as [s1 p] eqn:E1. destruct (run s1 r) as [s' ps'] eqn:E2.
       inversion H; subst. cbn [tevs_of]. specialize (IH _ _ _ E2).
-      destruct q as [name k|name rq|name k uo|i].
+      destruct q as [name k|name rq|name k uo|i|i].
+      5:{ simpl in E1. inversion E1; subst. exact IH. }
       + simpl in E1. cbn [tev_of Trace.gets_ok]. change (t_routed devs name) with (routed name).
         destruct (routed name); inversion E1; subst; cbn [Trace.get_eqb].
         * rewrite IH, andb_true_r. unfold v_get.
@@ -125,13 +126,32 @@ Section TraceProofs.
   (* a stream that exists before a run: same request, same subscription point, and the values it has
      accumulated grow by exactly what [since] reads off the trace; it is open afterwards unless
      cancelled in between *)
+  Definition is_cancel_of (i : nat) (e : tev M rmask) : bool :=
+    match e with TCancel j => Nat.eqb j i | _ => false end.
+
+  Lemma cancelled_later_cons i e r :
+    cancelled_later i (e :: r) = is_cancel_of i e || cancelled_later i r.
+  Proof. destruct e; reflexivity. Qed.
+
+  Lemma since_cancelled i k evs : snd (since f devs i k evs) = cancelled_later i evs.
+  Proof.
+    induction evs as [|e r IH]; [reflexivity|].
+    destruct e as [n k0 rs|n [v|c]|n k0 uo0|j|j]; cbn [since cancelled_later]; try exact IH.
+    - destruct (t_routed devs n); [|exact IH].
+      destruct (since f devs i k r) as [l c]. exact IH.
+    - destruct (Nat.eqb j i); [reflexivity|exact IH].
+    - destruct (Nat.eqb j i); [reflexivity|exact IH].
+  Qed.
+
   Lemma existing_stream qs : forall (s s2 : sstate) ps i st,
     run s qs = (s2, ps) -> nth_error (ss_streams s) i = Some st ->
     exists st2, nth_error (ss_streams s2) i = Some st2 /\
       st_name st2 = st_name st /\ st_ro st2 = st_ro st /\ st_routed st2 = st_routed st /\
       st_live st2 = st_live st /\ st_at st2 = st_at st /\
       (st_open st = false -> st_evs st2 = st_evs st /\ st_open st2 = false) /\
-      (st_open st = true -> st_routed st = true ->
+      (st_reading st = false ->
+         st_evs st2 = st_evs st /\ st_open st2 = st_open st && negb (cancelled_later i (tevs_of qs ps))) /\
+      (st_open st = true -> st_routed st = true -> st_reading st = true ->
          vals (st_ro st) (st_evs st2) =
            vals (st_ro st) (st_evs st) ++ fst (since f devs i (ro_mask (st_ro st)) (tevs_of qs ps)) /\
          st_open st2 = negb (snd (since f devs i (ro_mask (st_ro st)) (tevs_of qs ps)))).
@@ -139,9 +159,10 @@ Section TraceProofs.
     induction qs as [|q r IH]; intros s s2 ps i st H Hi.
     - simpl in H. inversion H; subst. exists st. split; [exact Hi|].
       split; [reflexivity|]. split; [reflexivity|]. split; [reflexivity|]. split; [reflexivity|].
-      split; [reflexivity|]. split.
+      split; [reflexivity|]. split; [|split].
       + intros Hc. split; [reflexivity|exact Hc].
-      + intros Ho _. simpl. rewrite app_nil_r. split; [reflexivity|exact Ho].
+      + intros _. simpl. rewrite andb_true_r. split; reflexivity.
+      + intros Ho _ _. simpl. rewrite app_nil_r. split; [reflexivity|exact Ho].
     - cbn [GenericServer.run] in H. destruct (step s q) as [s1 p] eqn:E1. destruct (run s1 r) as [s' ps'] eqn:E2.
       inversion H; subst. cbn [tevs_of].
       (* the stream after the first step *)
@@ -149,53 +170,69 @@ Section TraceProofs.
                 st_name st1 = st_name st /\ st_ro st1 = st_ro st /\ st_routed st1 = st_routed st /\
                 st_live st1 = st_live st /\ st_at st1 = st_at st /\
                 (st_open st = false -> st_evs st1 = st_evs st /\ st_open st1 = false) /\
-                (st_open st = true -> st_routed st = true ->
+                (st_reading st = false -> st_evs st1 = st_evs st /\ st_reading st1 = false /\
+                   st_open st1 = st_open st && negb (is_cancel_of i (tev_of q p))) /\
+                (st_open st = true -> st_routed st = true -> st_reading st = true ->
                    match tev_of q p with
                    | TUpdate name (inl v) =>
                        if t_routed devs name
-                       then st_evs st1 = st_evs st ++ [mkVE v (clock_at (v_reads (ss_v s)))] /\ st_open st1 = true
-                       else st_evs st1 = st_evs st /\ st_open st1 = true
-                   | TCancel j => st_evs st1 = st_evs st /\ st_open st1 = negb (Nat.eqb j i)
-                   | _ => st_evs st1 = st_evs st /\ st_open st1 = true
+                       then st_evs st1 = st_evs st ++ [mkVE v (clock_at (v_reads (ss_v s)))] /\ st_open st1 = true /\ st_reading st1 = true
+                       else st_evs st1 = st_evs st /\ st_open st1 = true /\ st_reading st1 = true
+                   | TCancel j => st_evs st1 = st_evs st /\ st_open st1 = negb (Nat.eqb j i) /\ st_reading st1 = true
+                   | TStall j => st_evs st1 = st_evs st /\ st_open st1 = true /\ st_reading st1 = negb (Nat.eqb j i)
+                   | _ => st_evs st1 = st_evs st /\ st_open st1 = true /\ st_reading st1 = true
                    end)).
-      { destruct q as [name k|name rq|name k uo|j].
-        - simpl in E1. destruct (routed name); inversion E1; subst; exists st; repeat split; auto.
+      { destruct q as [name k|name rq|name k uo|j|j].
+        - simpl in E1. destruct (routed name); inversion E1; subst; exists st; cbn [tev_of is_cancel_of];
+            rewrite andb_true_r; repeat split; auto.
         - rewrite step_update in E1. cbn [tev_of]. change (t_routed devs name) with (routed name).
           destruct (routed name) eqn:Ern.
           + destruct (rule (v_val (ss_v s)) rq) as [nv|c]; inversion E1; subst.
             * exists (deliver [mkVE nv (clock_at (v_reads (ss_v s)))] st). split.
               { cbn [ss_streams]. rewrite nth_error_map, Hi. reflexivity. }
-              unfold deliver. destruct (st_open st) eqn:Eo; cbn [andb].
-              -- destruct (st_routed st) eqn:Er; cbn [st_name st_ro st_routed st_live st_at st_evs st_open];
-                   repeat split; auto; try discriminate; try (intros; discriminate).
-              -- repeat split; auto; try discriminate; try (intros; discriminate).
-            * exists st. repeat split; auto.
-          + inversion E1; subst. exists st. repeat split; auto.
+              cbn [is_cancel_of]. unfold deliver.
+              destruct (st_open st) eqn:Eo; destruct (st_routed st) eqn:Er; destruct (st_reading st) eqn:Erd;
+                cbn [andb negb st_name st_ro st_routed st_live st_at st_evs st_open st_reading];
+                rewrite ?Eo, ?Er, ?Erd; repeat split; auto; try discriminate; try (intros; discriminate).
+            * exists st. cbn [is_cancel_of]. rewrite andb_true_r. repeat split; auto.
+          + inversion E1; subst. exists st. cbn [is_cancel_of]. rewrite andb_true_r. repeat split; auto.
         - simpl in E1. inversion E1; subst. exists st. split.
           { cbn [ss_streams]. rewrite nth_error_app1; [exact Hi|]. apply nth_error_Some. rewrite Hi. discriminate. }
-          repeat split; auto.
-        - simpl in E1. inversion E1; subst. cbn [ss_streams tev_of].
+          cbn [tev_of is_cancel_of]. rewrite andb_true_r. repeat split; auto.
+        - simpl in E1. inversion E1; subst. cbn [ss_streams tev_of is_cancel_of].
           rewrite (cancel_at_nth j _ _ Hi). destruct (Nat.eqb j i) eqn:Ej.
-          + exists (close st). repeat split; auto.
-          + exists st. repeat split; auto. }
-      destruct Hstep as [st1 [Hi1 [Hn1 [Hro1 [Hr1 [Hl1 [Ha1 [Hc1 Ho1]]]]]]]].
-      destruct (IH _ _ _ _ _ E2 Hi1) as [st2 [Hi2 [Hn2 [Hro2 [Hr2 [Hl2 [Ha2 [Hc2 Ho2]]]]]]]].
+          + exists (close st). cbn [negb]. rewrite andb_false_r. repeat split; auto.
+          + exists st. cbn [negb]. rewrite andb_true_r. repeat split; auto.
+        - simpl in E1. inversion E1; subst. cbn [ss_streams tev_of is_cancel_of].
+          rewrite (stall_at_nth j _ _ Hi). destruct (Nat.eqb j i) eqn:Ej.
+          + exists (stall st). cbn [negb]. rewrite andb_true_r. repeat split; auto.
+          + exists st. cbn [negb]. rewrite andb_true_r. repeat split; auto. }
+      destruct Hstep as [st1 [Hi1 [Hn1 [Hro1 [Hr1 [Hl1 [Ha1 [Hc1 [Hd1 Ho1]]]]]]]]].
+      destruct (IH _ _ _ _ _ E2 Hi1) as [st2 [Hi2 [Hn2 [Hro2 [Hr2 [Hl2 [Ha2 [Hc2 [Hd2 Ho2]]]]]]]]].
       exists st2. split; [exact Hi2|]. rewrite Hn2, Hro2, Hr2, Hl2, Ha2.
-      split; [exact Hn1|]. split; [exact Hro1|]. split; [exact Hr1|]. split; [exact Hl1|]. split; [exact Ha1|]. split.
+      split; [exact Hn1|]. split; [exact Hro1|]. split; [exact Hr1|]. split; [exact Hl1|]. split; [exact Ha1|].
+      split; [|split].
       + intros Hcl. destruct (Hc1 Hcl) as [He1 Hop1]. destruct (Hc2 Hop1) as [He2 Hop2]. rewrite He2, He1. auto.
-      + intros Hop Hrt. specialize (Ho1 Hop Hrt). rewrite Hro1, Hr1 in *.
-        destruct (tev_of q p) as [n k0 rs|n [v|c]|n k0 uo0|j] eqn:Et; cbn [since].
-        * destruct Ho1 as [He1 Hop1]. destruct (Ho2 Hop1 Hrt) as [A B]. rewrite He1 in A. auto.
+      + intros Hrd. destruct (Hd1 Hrd) as [He1 [Hrd1 Hop1]]. destruct (Hd2 Hrd1) as [He2 Hop2].
+        rewrite He2, He1. split; [reflexivity|]. rewrite Hop2, Hop1, cancelled_later_cons.
+        rewrite negb_orb, andb_assoc. reflexivity.
+      + intros Hop Hrt Hrd. specialize (Ho1 Hop Hrt Hrd). rewrite Hro1, Hr1 in *.
+        destruct (tev_of q p) as [n k0 rs|n [v|c]|n k0 uo0|j|j] eqn:Et; cbn [since].
+        * destruct Ho1 as [He1 [Hop1 Hrd1]]. destruct (Ho2 Hop1 Hrt Hrd1) as [A B]. rewrite He1 in A. auto.
         * destruct (t_routed devs n).
-          -- destruct Ho1 as [He1 Hop1]. destruct (Ho2 Hop1 Hrt) as [A B].
+          -- destruct Ho1 as [He1 [Hop1 Hrd1]]. destruct (Ho2 Hop1 Hrt Hrd1) as [A B].
              destruct (since f devs i (ro_mask (st_ro st)) (tevs_of r ps')) as [l c] eqn:Es. cbn [fst snd] in *.
              rewrite A, He1. unfold vals. rewrite map_app, <- app_assoc. cbn [map app ve_value]. auto.
-          -- destruct Ho1 as [He1 Hop1]. destruct (Ho2 Hop1 Hrt) as [A B]. rewrite He1 in A. auto.
-        * destruct Ho1 as [He1 Hop1]. destruct (Ho2 Hop1 Hrt) as [A B]. rewrite He1 in A. auto.
-        * destruct Ho1 as [He1 Hop1]. destruct (Ho2 Hop1 Hrt) as [A B]. rewrite He1 in A. auto.
-        * destruct Ho1 as [He1 Hop1]. destruct (Nat.eqb j i); cbn [negb] in Hop1.
+          -- destruct Ho1 as [He1 [Hop1 Hrd1]]. destruct (Ho2 Hop1 Hrt Hrd1) as [A B]. rewrite He1 in A. auto.
+        * destruct Ho1 as [He1 [Hop1 Hrd1]]. destruct (Ho2 Hop1 Hrt Hrd1) as [A B]. rewrite He1 in A. auto.
+        * destruct Ho1 as [He1 [Hop1 Hrd1]]. destruct (Ho2 Hop1 Hrt Hrd1) as [A B]. rewrite He1 in A. auto.
+        * destruct Ho1 as [He1 [Hop1 Hrd1]]. destruct (Nat.eqb j i); cbn [negb] in Hop1.
           -- destruct (Hc2 Hop1) as [He2 Hop2]. cbn [fst snd]. rewrite He2, He1, app_nil_r. auto.
-          -- destruct (Ho2 Hop1 Hrt) as [A B]. rewrite He1 in A. auto.
+          -- destruct (Ho2 Hop1 Hrt Hrd1) as [A B]. rewrite He1 in A. auto.
+        * destruct Ho1 as [He1 [Hop1 Hrd1]]. destruct (Nat.eqb j i); cbn [negb] in Hrd1.
+          -- destruct (Hd2 Hrd1) as [He2 Hop2]. cbn [fst snd]. rewrite He2, He1, app_nil_r.
+             rewrite Hop2, Hop1. auto.
+          -- destruct (Ho2 Hop1 Hrt Hrd1) as [A B]. rewrite He1 in A. auto.
   Qed.
 
   Lemma run_streams_length qs : forall (s s2 : sstate) ps,
@@ -206,7 +243,8 @@ Section TraceProofs.
     - simpl in H. inversion H; subst. simpl. lia.
     - cbn [GenericServer.run] in H. destruct (step s q) as [s1 p] eqn:E1. destruct (run s1 r) as [s' ps'] eqn:E2.
       inversion H; subst. cbn [tevs_of]. rewrite (IH _ _ _ E2).
-      destruct q as [name k|name rq|name k uo|j].
+      destruct q as [name k|name rq|name k uo|j|j].
+      5:{ simpl in E1. inversion E1; subst. cbn [ss_streams tev_of count_opens]. rewrite stall_at_length. reflexivity. }
       + simpl in E1. destruct (routed name); inversion E1; subst; reflexivity.
       + rewrite step_update in E1. destruct (routed name).
         * destruct (rule (v_val (ss_v s)) rq); inversion E1; subst; cbn [ss_streams tev_of count_opens];
@@ -237,7 +275,10 @@ Section TraceProofs.
       apply nth_error_Some in H0. lia.
     - cbn [GenericServer.run] in H. destruct (step s q) as [s1 p] eqn:E1. destruct (run s1 r) as [s' ps'] eqn:E2.
       inversion H; subst. cbn [tevs_of].
-      destruct q as [name k|name rq|name k uo|j].
+      destruct q as [name k|name rq|name k uo|j|j].
+      5:{ simpl in E1. inversion E1; subst. cbn [tev_of]. unfold stream_fact. cbn [find_open].
+          pose proof (IH _ _ _ i st2 E2) as IH'. cbn [ss_streams ss_v] in IH'. rewrite stall_at_length in IH'.
+          exact (IH' Hle Hi). }
       + simpl in E1. assert (s1 = s) by (destruct (routed name); inversion E1; reflexivity). subst s1.
         cbn [tev_of]. unfold stream_fact. cbn [find_open]. exact (IH _ _ _ _ _ E2 Hle Hi).
       + rewrite step_update in E1. cbn [tev_of]. unfold stream_fact.
@@ -249,21 +290,21 @@ Section TraceProofs.
           -- cbn [find_open]. exact (IH _ _ _ _ _ E2 Hle Hi).
         * inversion E1; subst. cbn [find_open]. exact (IH _ _ _ _ _ E2 Hle Hi).
       + simpl in E1. inversion E1; subst. cbn [tev_of]. unfold stream_fact.
-        remember (mkSt name (mkR k uo None) (routed name) true (ss_v s) [] true) as st0.
+        remember (mkSt name (mkR k uo None) (routed name) true (ss_v s) [] true true) as st0.
         destruct (Nat.eq_dec i (List.length (ss_streams s))) as [Heq|Hne].
         * (* this is the stream being opened *)
           subst i. rewrite Nat.sub_diag. cbn [find_open].
           assert (Hn : nth_error (ss_streams s ++ [st0]) (List.length (ss_streams s)) = Some st0).
           { rewrite nth_error_app2 by lia. rewrite Nat.sub_diag. reflexivity. }
           destruct (@existing_stream r (mkSS (ss_v s) (ss_streams s ++ [st0])) s2 ps' _ st0 E2 Hn)
-            as [st2' [Hi2 [Hn2 [Hro2 [Hr2 [Hl2 [Ha2 [Hc2 Ho2]]]]]]]].
+            as [st2' [Hi2 [Hn2 [Hro2 [Hr2 [Hl2 [Ha2 [Hc2 [Hd2 Ho2]]]]]]]]].
           cbn [ss_streams] in Hi2. rewrite Hi in Hi2. inversion Hi2; subst st2'.
           exists name, k, uo, (v_val (ss_v s)), (tevs_of r ps').
           rewrite Hn2, Hro2, Hr2, Hl2, Ha2. subst st0. cbn [st_name st_ro st_routed st_live st_at].
           split; [reflexivity|]. split; [reflexivity|]. split; [reflexivity|]. split; [reflexivity|].
           split; [reflexivity|]. split; [reflexivity|].
           intros Hrt. change (t_routed devs name) with (routed name) in Hrt.
-          destruct (Ho2 eq_refl Hrt) as [A B]. split; [|exact B].
+          destruct (Ho2 eq_refl Hrt eq_refl) as [A B]. split; [|exact B].
           cbn [st_ro ro_mask st_evs vals map app] in A. exact A.
         * (* a later one *)
           assert (Hle' : (List.length (ss_streams (mkSS (ss_v s) (ss_streams s ++ [st0]))) <= i)%nat).
